@@ -69,6 +69,13 @@ class Runner:
         if "cluster" in on: args += ["--atlasClusterName", self.sc.cluster]
         if "pub" in on: args += ["--atlasPublicKey", self.sc.public]
         if "priv" in on: args += ["--atlasPrivateKey", self.sc.private]
+        empty_valued = []
+        if idx % 5 == 2:
+            # "not given" spelled as a flag with an empty value (a script that expands an unset variable): still not a project / cluster / key
+            for sw, fl in (("proj", "--atlasProjectId"), ("cluster", "--atlasClusterName"), ("pub", "--atlasPublicKey"), ("priv", "--atlasPrivateKey")):
+                if sw not in on and (idx // 5 + len(sw)) % 2 == 0:
+                    args += [fl, ""]
+                    empty_valued.append(fl)
         if "start" in on: args += ["-s", "1700000000"]
         if "end" in on: args += ["-e", "1700600000"]
         f = self.atlas()
@@ -105,6 +112,15 @@ class Runner:
                 before.add("stdin.log")
                 sin = open(sp, "rb")
                 kw = {"stdin": sin}
+            elif "stdin" in on and stdin_kind == "socket":
+                # what a supervisor / node's child_process hands to a child as its stdin: one end of a UNIX socket pair
+                import socket as _so
+                a_, b_ = _so.socketpair()
+                a_.sendall(self.data)
+                a_.shutdown(_so.SHUT_WR)
+                sin = b_
+                kw = {"stdin": b_.fileno()}
+                self._keep = a_
             elif "stdin" in on:
                 # a pipe is a pipe, whatever arrives through it: "emptypipe" is a producer that writes nothing
                 kw = {"input": b"" if stdin_kind == "emptypipe" else self.data}
@@ -125,7 +141,7 @@ class Runner:
                     changed.append(n)
             except OSError:
                 changed.append(n)
-        obs = {"on": sorted(on), "args": args, "stdin_kind": stdin_kind if "stdin" in on else "/dev/null", "empty_key_variables_exported": env_empty, "rc": p.returncode, "stderr": p.stderr.decode("utf-8", "replace"), "stdout": p.stdout,
+        obs = {"on": sorted(on), "args": args, "stdin_kind": stdin_kind if "stdin" in on else "/dev/null", "empty_key_variables_exported": env_empty, "flags_given_with_empty_value": empty_valued, "rc": p.returncode, "stderr": p.stderr.decode("utf-8", "replace"), "stdout": p.stdout,
                "new_files": new, "changed_files": changed, "tmp_left": sorted(os.listdir(tmp)),
                "connects": [c.get("target") or c.get("line") for c in f.connects[c0:]], "requests": len(f.log) - l0}
         out_file = None
@@ -174,8 +190,9 @@ def judge(v, obs, rl, expected_out, preexisting):
     on = set(obs["on"])
     rep = {k: (x if not isinstance(x, bytes) else x.decode("utf-8", "replace")[:1500]) for k, x in obs.items() if k != "events"}
     rep["rule"] = rl
-    sig_sw = ("+".join(obs["on"]) or "(none)") + ({"file": " [stdin < file]", "emptyfile": " [stdin < empty file]", "emptypipe": " [stdin: a pipe nothing is written to]"}.get(obs.get("stdin_kind"), "")) \
-        + (" [ATLAS_*_KEY exported but empty]" if obs.get("empty_key_variables_exported") else "")
+    sig_sw = ("+".join(obs["on"]) or "(none)") + ({"file": " [stdin < file]", "emptyfile": " [stdin < empty file]", "emptypipe": " [stdin: a pipe nothing is written to]", "socket": " [stdin: a UNIX socket]"}.get(obs.get("stdin_kind"), "")) \
+        + (" [ATLAS_*_KEY exported but empty]" if obs.get("empty_key_variables_exported") else "") \
+        + (" [%s given with an empty value]" % ", ".join(obs["flags_given_with_empty_value"]) if obs.get("flags_given_with_empty_value") else "")
     if str(obs.get("stdin_kind", "")).startswith("empty"):
         expected_out = b""
     rejected = obs["rc"] != 0
@@ -271,7 +288,7 @@ def run(tier):
             return i, R.run(recs[i]["on"], 100000 + i, stdin_kind="file")
 
         def one_empty(i):
-            return i, R.run(recs[i]["on"], 200000 + i, stdin_kind="emptypipe" if i % 2 else "emptyfile")
+            return i, R.run(recs[i]["on"], 200000 + i, stdin_kind=("emptypipe", "emptyfile", "socket")[i % 3])
         with_empty = with_stdin if tier != "quick" else [i for i in with_stdin if recs[i]["rule"] != "reject"] + [i for i in with_stdin if recs[i]["rule"] == "reject"][:600]
         results = common.parallel_map(one, order) + common.parallel_map(one_file, with_stdin) + common.parallel_map(one_empty, with_empty)
         for i, obs in results:
